@@ -827,6 +827,19 @@ pub fn c16(tier: Tier) -> i32 {
         trees.push(vec![file("A.t.sol", pq), file("B.t.sol", pq)]);
         trees.push(vec![file("A.t.sol", pq), file("B.t.sol", pq), file("C.sol", SRC_P.as_bytes()), file("D.T.SOL", pq), file("E.t.sol", pq)]);
         trees.push(vec![file("A.t.sol", pq), file("B.T.sol", GARBAGE), file("C.t.Sol", pq), file("Real.sol", pq)]);
+        // two eligible files of equal byte length and different findings at the same position of sibling directories; another
+        // file in one of the directories shifts the position (and must change nothing)
+        let with = SRC_P.as_bytes().to_vec();
+        let without = SRC_P.replace("return a + 1;", "return a    ;").replace("^0.8.0", " 0.8.0").into_bytes();
+        assert_eq!(with.len(), without.len());
+        let fa = |n: &str| Entry::File { name: n.into(), content: with.clone() };
+        let fb = |n: &str| Entry::File { name: n.into(), content: without.clone() };
+        let dd = |name: &str, children: Vec<Entry>| Entry::Dir { name: name.into(), children };
+        trees.push(vec![dd("token", vec![fa("Token.sol")]), dd("vault", vec![fb("Vault.sol")])]);
+        trees.push(vec![dd("token", vec![fb("Token.sol")]), dd("vault", vec![fa("Vault.sol")])]);
+        trees.push(vec![dd("token", vec![fa("Token.sol")]), dd("vault", vec![file("notes.txt", GARBAGE), fb("Vault.sol")])]);
+        trees.push(vec![dd("token", vec![file("a.t.sol", pq), fb("Token.sol")]), dd("vault", vec![file("b.t.sol", GARBAGE), fa("Vault.sol")])]);
+        trees.push(vec![fa("Same.sol"), dd("sub", vec![fb("Same.sol")]), dd("sub2", vec![fa("Same.sol")])]);
     }
     // an eligible file 70 directories deep next to ineligible ones on the way down
     {
